@@ -11,6 +11,8 @@ mod ops;
 mod gen;
 mod kf;
 mod libcorpus;
+mod io_ops;
+mod crypto_ops;
 
 fn main() {
     std::panic::set_hook(Box::new(|_| {}));
@@ -47,6 +49,7 @@ fn dispatch(op: &str, toks: &[&str]) -> String {
     match op {
         "kf" => return kf::dispatch(toks[0]),
         "libcorpus" => return libcorpus::corpus().join(" | "),
+        "crypto_frames" | "crypto_big_tamper" => return crypto_ops::dispatch(op, toks),
         "probe_item" => return gen::item_probe(toks[0].parse().unwrap()),
         "probe_tuple" => return gen::tuple_probe(toks[0].parse().unwrap()),
         "probe_variant" => return gen::variant_probe(toks[0].parse().unwrap(), toks[1].parse().unwrap()),
